@@ -157,3 +157,209 @@ Theorem C19_lattice_unclipped_outside_sum_refuted :
     forall as_list, qsum (hyper_weights false as_list sizes x) == 1#2.
 Proof. exact unclipped_outside_mass_lost. Qed.
 Print Assumptions C19_lattice_unclipped_outside_sum_refuted.
+
+(* ====================================================================== *)
+(* Links to the layers' evaluation models (proofs: Proofs/GradientLinks.v).
+   The theorems above say "sum_v w_v K_v has gradient w" for an arbitrary w.
+   The theorems below say that the layer OUTPUT of the evaluation models
+   (C02's Model/LatticeInterp.v, Model/PWLEval.v, Model/CategoricalEval.v,
+   Model/KFL.v) IS that sum for exactly the weight functions that
+   Harness/H_C19.v compares with the tf.GradientTape gradients
+   (hyper_weights / simplex_weights / pwl_kernel_weights / cat_weights /
+   kfl_grad_kernel / kfl_grad_scale / kfl_grad_input of Model/Gradients.v).
+     LI = Model.LatticeInterp, PE = Model.PWLEval, CE = Model.CategoricalEval,
+     KF = Model.KFL;  mat_set v u a K = kernel matrix K with entry (v, u) := a. *)
+From TFL Require Import Proofs.GradientLinks.
+
+(* ---------------- Lattice, hypercube ---------------- *)
+(* The weight vector that C02's literal model (batch_outer_operation over the
+   1-D weights) multiplies with the kernel column is, entry by entry, the
+   vector of Model/Gradients.v: any rank, any sizes, clipped or not, in range
+   or not, 2^d shortcut or general path (as_list = not tensor_input). *)
+Theorem C19_lattice_hypercube_weights_are_C02_weights : forall tensor clip sizes x,
+  length x = length sizes -> sizes <> [] ->
+  Forall2 Qeq (LI.batch_outer (LI.weight_lists sizes (LI.hyper_weights tensor clip sizes x)))
+              (hyper_weights clip (negb tensor) sizes x).
+Proof. exact hyper_weights_link. Qed.
+Print Assumptions C19_lattice_hypercube_weights_are_C02_weights.
+
+(* entry (p, u) of the C02 layer model's output is <weights(x), kernel column u>;
+   no hypothesis on sizes, range or clipping *)
+Theorem C19_lattice_output_is_linear_in_kernel : forall tensor clip units sizes K pts p u,
+  (p < length pts)%nat -> (u < units)%nat -> (u < length (nth p pts []))%nat ->
+  length (nth u (nth p pts []) []) = length sizes -> sizes <> [] ->
+  nth u (nth p (LI.lattice_eval LI.Hypercube tensor clip units sizes K pts) []) 0 ==
+  dot (hyper_weights clip (negb tensor) sizes (nth u (nth p pts []) [])) (column u K).
+Proof. exact lattice_hyper_output_linear. Qed.
+Print Assumptions C19_lattice_output_is_linear_in_kernel.
+
+(* d output_u / d K[v, u'] = weight_v if u = u' else 0, for EVERY kernel K *)
+Theorem C19_lattice_hypercube_kernel_gradient : forall tensor clip units sizes K u x u' v h,
+  length x = length sizes -> sizes <> [] -> (v < length K)%nat -> (u' < length (nth v K []))%nat ->
+  LI.unit_fn LI.Hypercube tensor clip units sizes (mat_set v u' (nth u' (nth v K []) 0 + h) K) u x
+  - LI.unit_fn LI.Hypercube tensor clip units sizes K u x
+  == h * (if Nat.eqb u u' then nth v (hyper_weights clip (negb tensor) sizes x) 0 else 0).
+Proof. exact lattice_hyper_kernel_gradient. Qed.
+Print Assumptions C19_lattice_hypercube_kernel_gradient.
+
+(* ... and for sizes >= 2 with clipped or in-range input these same weights are
+   non-negative and sum to one *)
+Theorem C19_lattice_hypercube_output_convex : forall tensor clip units sizes K u x,
+  sizes <> [] -> lattice_point_ok clip sizes x ->
+  LI.unit_fn LI.Hypercube tensor clip units sizes K u x == dot (hyper_weights clip (negb tensor) sizes x) (column u K) /\
+  (forall a, In a (hyper_weights clip (negb tensor) sizes x) -> 0 <= a) /\
+  qsum (hyper_weights clip (negb tensor) sizes x) == 1.
+Proof. exact lattice_hyper_output_convex. Qed.
+Print Assumptions C19_lattice_hypercube_output_convex.
+
+(* ---------------- Lattice, simplex ---------------- *)
+(* C02's simplex model (clip, corner, residuals, stable descending sort, cumsum
+   of strides, gather incl. the units > 1 index arithmetic) is the sparse sum
+   over Model/Gradients.v's simplex_sparse terms: no range hypothesis (outside
+   the range the gather reads whatever index results, 0 beyond the kernel) *)
+Theorem C19_lattice_simplex_output_is_sparse_sum : forall tensor clip units sizes K u x,
+  length x = length sizes ->
+  LI.unit_fn LI.Simplex tensor clip units sizes K u x ==
+  sp_eval (simplex_sparse clip sizes x) (Proofs.LatticeInterp.gather_of units K u).
+Proof. exact unit_fn_simplex_sparse. Qed.
+Print Assumptions C19_lattice_simplex_output_is_sparse_sum.
+
+(* sizes >= 2, clipped or in-range input: every gathered index is a vertex index *)
+Theorem C19_lattice_simplex_indices_in_range : forall clip sizes x, lattice_point_ok clip sizes x ->
+  forall p, In p (simplex_sparse clip sizes x) -> (0 <= fst p < Z.of_nat (num_vertices sizes))%Z.
+Proof. exact simplex_indices_in_range. Qed.
+Print Assumptions C19_lattice_simplex_indices_in_range.
+
+(* ... hence the output is <simplex_weights(x), kernel column u> with the DENSE
+   vector the check compares with the tape gradient *)
+Theorem C19_lattice_simplex_output_is_linear_in_kernel : forall tensor clip units sizes K pts p u,
+  (p < length pts)%nat -> (u < units)%nat -> (u < length (nth p pts []))%nat ->
+  lattice_point_ok clip sizes (nth u (nth p pts []) []) -> Forall (fun r => length r = units) K ->
+  nth u (nth p (LI.lattice_eval LI.Simplex tensor clip units sizes K pts) []) 0 ==
+  dot (simplex_weights clip sizes (nth u (nth p pts []) [])) (column u K).
+Proof. exact lattice_simplex_output_linear. Qed.
+Print Assumptions C19_lattice_simplex_output_is_linear_in_kernel.
+
+Theorem C19_lattice_simplex_kernel_gradient : forall tensor clip units sizes K u x u' v h,
+  lattice_point_ok clip sizes x -> (u < units)%nat -> Forall (fun r => length r = units) K ->
+  (v < length K)%nat -> (u' < units)%nat ->
+  LI.unit_fn LI.Simplex tensor clip units sizes (mat_set v u' (nth u' (nth v K []) 0 + h) K) u x
+  - LI.unit_fn LI.Simplex tensor clip units sizes K u x
+  == h * (if Nat.eqb u u' then nth v (simplex_weights clip sizes x) 0 else 0).
+Proof. exact lattice_simplex_kernel_gradient. Qed.
+Print Assumptions C19_lattice_simplex_kernel_gradient.
+
+(* the dense vector itself is non-negative and sums to one *)
+Theorem C19_lattice_simplex_dense_weights_convex : forall clip sizes x, lattice_point_ok clip sizes x ->
+  (forall a, In a (simplex_weights clip sizes x) -> 0 <= a) /\ qsum (simplex_weights clip sizes x) == 1.
+Proof. exact simplex_weights_convex. Qed.
+Print Assumptions C19_lattice_simplex_dense_weights_convex.
+
+(* ---------------- PWLCalibration ---------------- *)
+(* unit u of the layer model's call (fixed or learned keypoints, units
+   broadcasting, matmul / reduce_sum paths, cyclic closing row, missing-value
+   imputation given or derived) is Model/Gradients.v's pwl_eval on that unit's
+   kernel column; sel / unit_input / missing_flag pick the column unit u reads *)
+Theorem C19_pwl_layer_is_pwl_eval : forall L row given u,
+  (u < PE.p_units L)%nat -> (length row <= 1 \/ length row = PE.p_units L)%nat ->
+  nth u (PE.call_row L row given) 0 ==
+  pwl_eval (PE.p_cyclic L) (missing_flag L row given u) (nth u (PE.p_missing_output L) 0)
+           (PE.unit_lefts L u) (PE.unit_lens L u) (column u (PE.p_kernel L)) (unit_input row u).
+Proof. exact call_row_unit. Qed.
+Print Assumptions C19_pwl_layer_is_pwl_eval.
+
+(* = is_missing * missing_output + <pwl_kernel_weights, kernel column u> *)
+Theorem C19_pwl_output_is_linear_in_kernel : forall L row given u,
+  (u < PE.p_units L)%nat -> (length row <= 1 \/ length row = PE.p_units L)%nat -> pwl_shape_ok L u ->
+  nth u (PE.call_row L row given) 0 ==
+  missing_flag L row given u * nth u (PE.p_missing_output L) 0 +
+  dot (pwl_kernel_weights (PE.p_cyclic L) (missing_flag L row given u) (PE.unit_lefts L u) (PE.unit_lens L u)
+                          (unit_input row u)) (column u (PE.p_kernel L)).
+Proof. exact pwl_output_linear. Qed.
+Print Assumptions C19_pwl_output_is_linear_in_kernel.
+
+Theorem C19_pwl_layer_kernel_gradient : forall L row given u u' v h,
+  (u < PE.p_units L)%nat -> (length row <= 1 \/ length row = PE.p_units L)%nat -> pwl_shape_ok L u ->
+  (v < length (PE.p_kernel L))%nat -> (u' < length (nth v (PE.p_kernel L) []))%nat ->
+  nth u (PE.call_row (pwl_with_kernel L (mat_set v u' (nth u' (nth v (PE.p_kernel L) []) 0 + h) (PE.p_kernel L))) row given) 0
+  - nth u (PE.call_row L row given) 0
+  == h * (if Nat.eqb u u' then
+            nth v (pwl_kernel_weights (PE.p_cyclic L) (missing_flag L row given u) (PE.unit_lefts L u) (PE.unit_lens L u)
+                                      (unit_input row u)) 0
+          else 0).
+Proof. exact pwl_kernel_gradient_layer. Qed.
+Print Assumptions C19_pwl_layer_kernel_gradient.
+
+(* ---------------- CategoricalCalibration ---------------- *)
+Theorem C19_categorical_output_is_linear_in_kernel : forall L row u,
+  (u < CE.c_units L)%nat -> (length row = 1 \/ length row = CE.c_units L)%nat ->
+  nth u (CE.cat_row L row) 0 =
+  dot (cat_weights (CE.c_buckets L) (CE.c_default L) (CE.cast_int (unit_input row u))) (column u (CE.c_kernel L)).
+Proof. exact cat_row_unit. Qed.
+Print Assumptions C19_categorical_output_is_linear_in_kernel.
+
+(* one-hot row selection, default bucket included; 0 for an out-of-range index *)
+Theorem C19_categorical_output_selects_row : forall L row u,
+  (u < CE.c_units L)%nat -> (length row = 1 \/ length row = CE.c_units L)%nat ->
+  let j := cat_index (CE.c_buckets L) (CE.c_default L) (CE.cast_int (unit_input row u)) in
+  nth u (CE.cat_row L row) 0 ==
+  if ((0 <=? j) && (j <? Z.of_nat (CE.c_buckets L)))%Z then nth u (nth (Z.to_nat j) (CE.c_kernel L) []) 0 else 0.
+Proof. exact cat_output_selects. Qed.
+Print Assumptions C19_categorical_output_selects_row.
+
+Theorem C19_categorical_layer_kernel_gradient : forall L row u u' b h,
+  (u < CE.c_units L)%nat -> (length row = 1 \/ length row = CE.c_units L)%nat ->
+  (b < CE.c_buckets L)%nat -> (b < length (CE.c_kernel L))%nat -> (u' < length (nth b (CE.c_kernel L) []))%nat ->
+  nth u (CE.cat_row (cat_with_kernel L (mat_set b u' (nth u' (nth b (CE.c_kernel L) []) 0 + h) (CE.c_kernel L))) row) 0
+  - nth u (CE.cat_row L row) 0
+  == h * (if Nat.eqb u u' then nth b (cat_weights (CE.c_buckets L) (CE.c_default L) (CE.cast_int (unit_input row u))) 0 else 0).
+Proof. exact cat_kernel_gradient_layer. Qed.
+Print Assumptions C19_categorical_layer_kernel_gradient.
+
+(* ---------------- KroneckerFactoredLattice ---------------- *)
+(* Model/KFL.v's unit output is Model/Gradients.v's kfl_out on the 1-D weights
+   kfl_w1d of the check (clip, size-2 linear form, hat functions) *)
+Theorem C19_kfl_unit_out_is_kfl_out : forall c p u xs,
+  length (nth u (KF.p_scale p) []) = length (nth u (KF.p_kern p) []) ->
+  KF.unit_out c p u xs ==
+  kfl_out (map (kfl_w1d (KF.c_clip c) (KF.c_size c)) xs) (nth u (KF.p_bias p) 0) (nth u (KF.p_scale p) []) (nth u (KF.p_kern p) []).
+Proof. exact unit_out_kfl_out. Qed.
+Print Assumptions C19_kfl_unit_out_is_kfl_out.
+
+Theorem C19_kfl_unit_kernel_gradient : forall clip L su ku b xs t d k h,
+  length su = length ku -> (t < length su)%nat -> (d < length (nth t ku []))%nat -> (d < length xs)%nat ->
+  (k < length (nth d (nth t ku []) []))%nat -> (k < L)%nat ->
+  KF.unit_eval clip L su
+    (set_nth_g t (set_nth_g d (set_nth k (nth k (nth d (nth t ku []) []) 0 + h) (nth d (nth t ku []) [])) (nth t ku [])) ku) b xs
+  - KF.unit_eval clip L su ku b xs
+  == h * nth k (nth d (kfl_grad_kernel (map (kfl_w1d clip L) xs) (length su) (nth t su 0) (nth t ku [])) []) 0.
+Proof. exact kfl_unit_kernel_gradient. Qed.
+Print Assumptions C19_kfl_unit_kernel_gradient.
+
+Theorem C19_kfl_unit_scale_gradient : forall clip L su ku b xs t h, length su = length ku -> (t < length su)%nat ->
+  KF.unit_eval clip L (set_nth t (nth t su 0 + h) su) ku b xs - KF.unit_eval clip L su ku b xs
+  == h * kfl_grad_scale (map (kfl_w1d clip L) xs) (length su) (nth t ku []).
+Proof. exact kfl_unit_scale_gradient. Qed.
+Print Assumptions C19_kfl_unit_scale_gradient.
+
+(* kfl_dw1d is the slope of kfl_w1d within one linear piece (kfl_piece: both
+   x and x + h clipped away on the same side; or inside the range, for size 2
+   anywhere, for hats x strictly inside a cell (j, j+1) and x + h in its
+   closure; unclipped hats also the pieces (-1, 0) and (-inf, -1)) *)
+Theorem C19_kfl_w1d_slope : forall clip size x h, kfl_piece clip size x h ->
+  Forall2 Qeq (kfl_w1d clip size (x + h))
+              (map2 (fun a s => a + h * s) (kfl_w1d clip size x) (kfl_dw1d clip size x)).
+Proof. exact kfl_w1d_piece. Qed.
+Print Assumptions C19_kfl_w1d_slope.
+
+(* input gradient of the layer model: ALL terms and dims, mean over terms,
+   scale, grad_fn through the product, slope of the 1-D weights *)
+Theorem C19_kfl_input_gradient : forall c p u xs i h,
+  length (nth u (KF.p_scale p) []) = length (nth u (KF.p_kern p) []) ->
+  (i < length xs)%nat -> Forall (fun K : list (list Q) => (i < length K)%nat) (nth u (KF.p_kern p) []) ->
+  kfl_piece (KF.c_clip c) (KF.c_size c) (nth i xs 0) h ->
+  KF.unit_out c p u (set_nth i (nth i xs 0 + h) xs) - KF.unit_out c p u xs
+  == h * nth i (kfl_grad_input (map (kfl_w1d (KF.c_clip c) (KF.c_size c)) xs) (map (kfl_dw1d (KF.c_clip c) (KF.c_size c)) xs)
+                               (nth u (KF.p_scale p) []) (nth u (KF.p_kern p) [])) 0.
+Proof. exact kfl_unit_input_gradient. Qed.
+Print Assumptions C19_kfl_input_gradient.
